@@ -61,6 +61,8 @@ struct Sink {
     opno: u64,
     /// standing invariants (harness lib `inv`) that failed: "PROPS\twhat"
     inv_fail: Vec<String>,
+    /// a recorded call sequence is being replayed: nothing is added to it (the clock lines after a reopen are in the file)
+    replaying: bool,
     inv_checks: u64,
     /// the last emitted answer started with `ok`
     last_res_ok: bool,
@@ -366,9 +368,9 @@ fn exec_call(sut: &mut Sut, s: &mut Sink, op: &Op) {
                     let mut seen: Vec<usize> = vec![];
                     for k in &all {
                         let shard = st.verif_clock_shard(k);
-                        if !seen.contains(&shard) {
+                        if !seen.contains(&shard) && !s.replaying {
                             seen.push(shard);
-                            s.emit("clock-after-reopen", format!("clock {}", shard), format!("ok {}", st.verif_clock_value(shard)));
+                            s.emit("clock-after-reopen", format!("clock {} {}", shard, hex(k)), format!("ok {}", st.verif_clock_value(shard)));
                         }
                     }
                 }
@@ -399,7 +401,7 @@ fn exec_call(sut: &mut Sut, s: &mut Sink, op: &Op) {
         Op::Clock { k } => {
             let st = sut.st().clone();
             let shard = st.verif_clock_shard(k);
-            s.emit("clock", format!("clock {}", shard), format!("ok {}", st.verif_clock_value(shard)));
+            s.emit("clock", format!("clock {} {}", shard, hex(k)), format!("ok {}", st.verif_clock_value(shard)));
         }
     }
 }
@@ -663,6 +665,7 @@ fn now_of(t: &[&str]) -> Option<u64> {
 }
 
 fn replay(path: &str, s: &mut Sink, dir: &str, recsize: usize) {
+    s.replaying = true;
     let f = std::io::BufReader::new(std::fs::File::open(path).unwrap());
     let mut sut: Option<Sut> = None;
     for line in f.lines() {
@@ -717,6 +720,7 @@ fn replay(path: &str, s: &mut Sink, dir: &str, recsize: usize) {
                 Some(Op::Patch { k: kk, p: chosen, ts: pts(ts) })
             }
             ["reopen", ttl, _, _] => Some(Op::Reopen { ttl: *ttl == "1", cache: sut.cfg.cache }),
+            ["clock", _, k] => Some(Op::Clock { k: unhex(k) }),
             ["clock", _] => sut.keys.first().cloned().map(|k| Op::Clock { k }),
             _ => parse_line(t),
         };
@@ -784,7 +788,7 @@ fn main() {
     std::fs::create_dir_all(&args.out).unwrap();
     let open = |n: &str| std::io::BufWriter::new(std::fs::File::create(format!("{}/{}", args.out, n)).unwrap());
     let mut s = Sink { ops: open("kv.ops"), imp: open("kv.impl"), hist: BTreeMap::new(), errs: BTreeMap::new(), tiers: BTreeMap::new(), lines: 0, cases: 0,
-        tops: open("kv.tiers.ops"), tlines: 0, tfail: vec![], opno: 0, inv_fail: vec![], inv_checks: 0, last_res_ok: false };
+        tops: open("kv.tiers.ops"), tlines: 0, tfail: vec![], opno: 0, inv_fail: vec![], inv_checks: 0, last_res_ok: false, replaying: false };
     let recsize = feoxdb::verif::pure::record_struct_size();
     feoxdb::verif::io::disable_ring(true);
     feoxdb::verif::proto::fast_shutdown(true);
